@@ -62,6 +62,7 @@ class Gen:
         self.allow_strbool = allow_strbool
         self.tdm = tdm
         self.allow_meta_opts = allow_meta_opts
+        self.allow_redeclare = True      # names may be declared again (the later declaration wins)
         self.vars = {}        # name -> ("scalar", kind, val) | ("array", kind, rows, cols, [vals]) | ("str", s) | ("bool", b) | ("symscalar",)
         self.used_names = set()
         self.params = []
@@ -171,7 +172,7 @@ class Gen:
             if self.params and self.r.random() < 0.6:
                 p = self.r.choice(self.params)
             else:
-                p = self.fresh(self.r.choice(["p", "par", "a", "ab", "theta", "beta", "bet", "x", "al", "alpha", "ph"]))
+                p = self.fresh(self.r.choice(["p", "par", "a", "ab", "theta", "beta", "bet", "x", "al", "alpha", "ph", "y", "var", "res", "val", "lambda", "is", "E", "I", "S", "N", "oo", "rhs", "np"]))
                 self.params.append(p)
             self.features.add("param")
             return E("{%s}" % p, "sym", None, 10, syms=[p])
@@ -344,7 +345,8 @@ class Gen:
         r = self.r.random()
         if self.allow_strbool and r < 0.08:
             self.features.add("str")
-            return ('"%s"' % self.r.choice(["a", "hello", "fock", "x y", "", "p0x", "1+2", "x#y", "True", "{p}", "q0", "é", "a,b", " lead", "[0]", "name"]), "str")
+            return ('"%s"' % self.r.choice(["a", "hello", "fock", "x y", "", "p0x", "1+2", "x#y", "True", "{p}", "q0", "é", "a,b", " lead", "[0]", "name",
+                                           "False", "pi", "a\x0cb", "v\x0bt", "n\x85l", "l\u2028s", "tab\there", "\x1c", "for", "# no comment", "'"]), "str")
         if self.allow_strbool and r < 0.14:
             self.features.add("bool")
             return (self.r.choice(["True", "False"]), "bool")
@@ -430,7 +432,7 @@ class Gen:
             ty = "float"
         nm = self.fresh()
         olds = [k for k, i in self.vars.items() if i[0] in ("scalar", "bool", "str")]
-        if olds and self.r.random() < 0.08:
+        if olds and self.allow_redeclare and self.r.random() < 0.08:
             nm = self.r.choice(olds)          # declared again: later uses see the new value
             self.features.add("redeclared-scalar")
         if ty == "bool":
@@ -461,7 +463,7 @@ class Gen:
             ty = "float"       # instantiation values are generic reals: keep parameters out of int arrays
         nm = name or self.fresh(self.r.choice(["A", "U", "M", "arr", "B1"]))
         olda = [k for k, i in self.vars.items() if i[0] == "array"]
-        if name is None and olda and self.r.random() < 0.1:
+        if name is None and olda and self.allow_redeclare and self.r.random() < 0.1:
             nm = self.r.choice(olda)          # the array name is declared again
             self.features.add("redeclared-array")
         rows = rows or self.r.choice([1, 1, 2, 2, 3])
